@@ -27,7 +27,7 @@ func specC04() *propertySpec {
 			{"C04-R3", "draw-equals-record: both drawBits record exactly the returned value, masked by bitmask64(n); the buffer stream consumes one word per call; buf is touched nowhere else", func(r *Run) { ruleC04R3(r); ruleC04R3buf(r) }},
 			{"C04-R4.4", "discard-taint: state written by (*repeat).reject influences later draws only through the discard flag, the net-zero count, or a replay-neutral forced stop", ruleC04R44},
 			{"C04-R4.5", "stateless-retries: loops that discard attempts (find, genUintN*) carry no state across attempts except a bounded try counter", ruleC04R45},
-			{"C04-R4.6", "discard-means-unused: at every endGroup with a computed discard flag, the value produced in the group is returned only on paths where the flag is false", ruleC04R46},
+			{"C04-R4.6", "discard-means-unused: at every endGroup with a computed discard flag, the value produced in the group is returned only on paths where the flag is false; the element of a rejected collection step is never accumulated (shared with C03-R2)", func(r *Run) { ruleC04R46(r); ruleC03R2(r) }},
 			{"C04-R5", "prune-removes-exactly-discards: prune removes group i only under groups[i].discard; removeGroup deletes data[g.begin:g.end] and rebases by g.end-g.begin", ruleC04R5},
 		},
 	}
